@@ -35,6 +35,10 @@ type hsPlan struct {
 	Fault         *hsFault `json:"fault,omitempty"`
 	Stale         bool     `json:"stale_file,omitempty"` // a file with the queue's name already exists
 	MmapFail      *hsMmap  `json:"mmap_fail,omitempty"`  // the n-th mmap of one side fails with ENOMEM
+	// protocol generation announced by the client / the server process when it is newer than the code's own
+	// (0 = the code's). The exchange must settle on the lower of the two announcements on both ends - or fail on both.
+	GenC int `json:"gen_client,omitempty"`
+	GenS int `json:"gen_server,omitempty"`
 }
 
 type hsMmap struct {
@@ -76,6 +80,17 @@ func (hsScenario) Gen(r *Rng, tier string, opts map[string]string) interface{} {
 		p.MmapFail = &hsMmap{Proc: r.Intn(2), N: 1 + r.Intn(2)}
 		p.Fault = nil
 	}
+	if r.Chance(1, 4) {
+		// a peer of a later protocol generation (announces a higher maximum than this build's)
+		switch r.Intn(4) {
+		case 0, 1:
+			p.GenS = r.Pick(4, 5, 7, 200, 255)
+		case 2:
+			p.GenC = r.Pick(4, 5, 255)
+		default:
+			p.GenS, p.GenC = r.Pick(4, 9), r.Pick(4, 9)
+		}
+	}
 	if v := opts["fault_k"]; v != "" {
 		f := &hsFault{Kind: "freeze"}
 		fmt.Sscanf(v, "%d", &f.K)
@@ -110,6 +125,11 @@ func (hsScenario) Shrink(plan interface{}) []interface{} {
 	if p.Stale {
 		q := clone()
 		q.Stale = false
+		out = append(out, q)
+	}
+	if p.GenC != 0 || p.GenS != 0 {
+		q := clone()
+		q.GenC, q.GenS = 0, 0
 		out = append(out, q)
 	}
 	return out
@@ -153,6 +173,7 @@ func (hsScenario) Run(s *simrt.Sim, plan interface{}, opts map[string]string) (*
 	pc := newProc(s, "client", 5001)
 	ps := newProc(s, "server", 5002)
 	dir := newRunDir(s)
+	pc.ProtoGen, ps.ProtoGen = p.GenC, p.GenS
 	procs := []*simrt.Proc{pc, ps}
 	names := []string{"client", "server"}
 	ops := [2]int{}
@@ -261,7 +282,18 @@ func (hsScenario) Run(s *simrt.Sim, plan interface{}, opts map[string]string) (*
 			cli, srv := sess[0], sess[1]
 			want := uint8(2)
 			if memfd {
-				want = 3
+				// what each side announced: its generation if the library consulted it, else this build's own
+				annC, annS := int(maxSupportProtoVersion), int(maxSupportProtoVersion)
+				if pc.ProtoGenSeen {
+					annC = pc.ProtoGen
+				}
+				if ps.ProtoGenSeen {
+					annS = ps.ProtoGen
+				}
+				want = uint8(minInt(annC, annS))
+				if annC != annS {
+					simrt.Count("probe.hs_generations_differ_both_ok", 1)
+				}
 			}
 			if cli.communicationVersion != want || srv.communicationVersion != want {
 				simrt.FailTagged("C12.version", tags, "negotiated versions: client %d, server %d, expected the lower common version %d on both", cli.communicationVersion, srv.communicationVersion, want)
